@@ -77,7 +77,6 @@ func (h264dp *h264Depacketizer) Depacketize(packet *Packet) (err error) {
 
 func (h264dp *h264Depacketizer) depacketizeStapa(packet *Packet) (err error) {
 	payload := packet.Payload()
-	header := payload[0]
 
 	// 	0                   1                   2                   3
 	// 	0 1 2 3 4 5 6 7 8 9 0 1 2 3 4 5 6 7 8 9 0 1 2 3 4 5 6 7 8 9 0 1
@@ -108,8 +107,7 @@ func (h264dp *h264Depacketizer) depacketizeStapa(packet *Packet) (err error) {
 			MediaType: codec.MediaTypeVideo,
 			Payload:   make([]byte, nalSize),
 		}
-		copy(frame.Payload, payload[off:])
-		frame.Payload[0] = 0 | (header & 0x60) | (frame.Payload[0] & 0x1F)
+		copy(frame.Payload, payload[off:]) // 保持聚合包内 NAL 原样（含其自身的 F/NRI 位）
 		if err = h264dp.writeFrame(packet.Timestamp, frame); err != nil {
 			return
 		}
